@@ -32,7 +32,7 @@ func sortedKeys[V any](m map[string]V) []string {
 	return ks
 }
 
-func writeEvidence(prop, tier string, seed uint64, a *agg, bt *builtTree, lcs []laneCfg, wall float64, violations, nworkers int, known *knownSet) {
+func writeEvidence(prop, tier string, seed uint64, a *agg, bt *builtTree, lcs []laneCfg, wall float64, violations, nworkers int, known *knownSet, isolatedLanes []string) {
 	var total int64
 	for _, n := range a.runs {
 		total += n
@@ -108,7 +108,7 @@ func writeEvidence(prop, tier string, seed uint64, a *agg, bt *builtTree, lcs []
 		"assumptions": []string{
 			"sampling: a clean batch is evidence, not proof",
 			"the stub pool states sync.Pool's documented contract (Get returns an object previously Put and not since returned, or New(); objects may vanish; Put(x) synchronises-before the Get returning x)",
-			"pre-emption granularity is the library call (plus seeded inner points where the harness loops sample by sample); the race detector covers unsynchronised accesses at any granularity",
+			"pre-emption granularity is the library statement (seeded inner points, at most 48 per run) and the library call; the race detector covers unsynchronised accesses at any granularity",
 			"linux/amd64, the repository's own Go toolchain",
 		},
 		"wall_s":     wall,
